@@ -521,7 +521,7 @@ proofs += proofs_am
 TU_MR = ("tu_multi_recordable", '#include "opentelemetry/sdk/trace/multi_recordable.h"\n')
 MR_PRE = r"""
 size_t g_k;
-enum { MOP_SetName = 1, MOP_SetStatus, MOP_SetAttribute, MOP_AddEvent, MOP_SetStartTime, MOP_SetSpanKind, MOP_SetDuration, MOP_AddLink, MOP_SetResource, MOP_SetInstrumentationScope };
+enum { MOP_SetName = 1, MOP_SetStatus, MOP_SetAttribute, MOP_AddEvent, MOP_SetStartTime, MOP_SetSpanKind, MOP_SetDuration, MOP_AddLink, MOP_SetResource, MOP_SetInstrumentationScope, MOP_SetTraceFlags, MOP_SetIdentity };
 unsigned long g_calls, g_w_h; int g_w_op; const char *g_w_sv; long g_w_i; const void *g_w_p;      /* number of calls on member recordables; the call number g_k */
 static void xc_havoc_ghosts(void) { size_t a; g_k = a; g_calls = 0; g_w_h = 0; g_w_op = 0; g_w_sv = 0; g_w_i = 0; g_w_p = 0; }
 typedef struct xc_recpair { unsigned long first; xc_handle second; } xc_recpair;       /* value_type of std::map<size_t, std::unique_ptr<Recordable>> */
@@ -560,6 +560,7 @@ def _configure_mr(cfg):
     cfg.ext_q["Recordable::SetStatus"] = lambda em, node, recv, args: "xc_mrec(%s, MOP_SetStatus, %s, (long)(%s), 0)" % (em.expr(unp(recv)), em.expr(args[1]), em.expr(args[0]))
     cfg.ext_q["Recordable::SetAttribute"] = lambda em, node, recv, args: "xc_mrec(%s, MOP_SetAttribute, %s, 0, (const void *)%s)" % (em.expr(unp(recv)), em.expr(args[0]), em.addr_of(args[1]))
     cfg.ext_q["Recordable::AddLink"] = lambda em, node, recv, args: "xc_mrec(%s, MOP_AddLink, (string_view){0}, (long)%s, (const void *)%s)" % (em.expr(unp(recv)), em.addr_of(args[1]), em.addr_of(args[0]))
+    cfg.ext_q["Recordable::SetTraceFlags"] = lambda em, node, recv, args: "xc_mrec(%s, MOP_SetTraceFlags, (string_view){0}, (long)(%s).rep_, 0)" % (em.expr(unp(recv)), em.expr(args[0]))
     cfg.ext_q["Recordable::SetResource"] = lambda em, node, recv, args: "xc_mrec(%s, MOP_SetResource, (string_view){0}, 0, (const void *)%s)" % (em.expr(unp(recv)), em.addr_of(args[0]))
     cfg.ext_q["Recordable::SetInstrumentationScope"] = lambda em, node, recv, args: "xc_mrec(%s, MOP_SetInstrumentationScope, (string_view){0}, 0, (const void *)%s)" % (em.expr(unp(recv)), em.addr_of(args[0]))
     cfg.opaque_records["sdk::resource::Resource"] = "xc_opaque"
@@ -589,6 +590,7 @@ contracts_mr = {
     "MultiRecordable_AddLink": mr_contract("MOP_AddLink", None, " && __CPROVER_is_fresh(span_context, sizeof(*span_context)) && __CPROVER_is_fresh(attributes, sizeof(*attributes))", "g_w_p == span_context && g_w_i == (long)attributes"),
     "MultiRecordable_SetResource": mr_contract("MOP_SetResource", None, " && __CPROVER_is_fresh(resource, sizeof(*resource))", "g_w_p == resource"),
     "MultiRecordable_SetInstrumentationScope": mr_contract("MOP_SetInstrumentationScope", None, " && __CPROVER_is_fresh(instrumentation_scope, sizeof(*instrumentation_scope))", "g_w_p == instrumentation_scope"),
+    "MultiRecordable_SetTraceFlags": mr_contract("MOP_SetTraceFlags", None, "", "g_w_i == (long)flags.rep_"),
     "MultiRecordable_SetStartTime": mr_contract("MOP_SetStartTime", None, "", "g_w_i == start_time.nanos_since_epoch_"),
     "MultiRecordable_SetSpanKind": mr_contract("MOP_SetSpanKind", None, "", "g_w_i == (long)span_kind"),
     "MultiRecordable_SetDuration": mr_contract("MOP_SetDuration", None, "", "g_w_i == (long)duration"),
@@ -596,7 +598,7 @@ contracts_mr = {
 }
 proofs_mr = [Proof("MultiRecordable_" + m, [("MultiRecordable::" + m, n)], enforce="MultiRecordable_" + m, timeout=300,
                    desc="the operation reaches the recordable of every processor exactly once with the caller's arguments")
-             for m, n in (("SetName", 1), ("SetStatus", 2), ("SetAttribute", 2), ("AddEvent", 3), ("SetStartTime", 1), ("SetSpanKind", 1), ("SetDuration", 1), ("AddLink", 2), ("SetResource", 1), ("SetInstrumentationScope", 1))]
+             for m, n in (("SetName", 1), ("SetStatus", 2), ("SetAttribute", 2), ("AddEvent", 3), ("SetStartTime", 1), ("SetSpanKind", 1), ("SetDuration", 1), ("AddLink", 2), ("SetResource", 1), ("SetInstrumentationScope", 1), ("SetTraceFlags", 1))]
 for _p in proofs_mr:
     _p.tu = TU_MR
     _p.pre_c = MR_PRE.replace("typedef struct xc_recpair", "#include \"xc_trace_boundary.h\"\ntypedef struct xc_recpair")
